@@ -168,8 +168,10 @@ def ls5(F, R):
                 if ("EMPTY" in tstr(y) or strip_refs(y)[:2] == ("c", 0)) and full_cluster(x):
                     return True
             return False
-        g1, _ = guarded(fn, b, is_empty_test)
-        g2, _ = guarded(fn, b, g_call("Attributes::is_directory", True))
+        # (also when the conjunction is computed into a flag first: `let is_root = is_dir && EMPTY == cluster; if is_root {..}`)
+        from .ev import implying_edges
+        g1 = b not in fn.reach([0], cut_edges=list(implying_edges(fn, is_empty_test)))
+        g2 = b not in fn.reach([0], cut_edges=list(implying_edges(fn, g_call("Attributes::is_directory", True))))
         R.require(g1 and g2, fn, "root-iff-empty-dir", "ROOT_DIR mapping must be guarded by <the full start cluster decoded for the FAT type> == EMPTY && is_directory() (testing only the low word turns FAT32 directories at multiples of 65536 into the root)", fn.loc(b, i))
         # no dependence on fat_type
         dep = [g for (gb, gi, g) in all_guards(fn) if "fat_type" in tstr(g.raw) and fn.unreachable_without(b, [(gb, gi)])]
@@ -177,11 +179,15 @@ def ls5(F, R):
     # cluster source per fat type
     c32 = [(b, t) for b, t in fn.calls() if call_matches(t, ("OnDiskDirEntry::first_cluster_fat32",))]
     c16 = [(b, t) for b, t in fn.calls() if call_matches(t, ("OnDiskDirEntry::first_cluster_fat16",))]
-    ok = len(c32) == 1 and len(c16) == 1
+    ok = len(c32) >= 1 and len(c16) >= 1
     if ok:
-        g32, _ = guarded(fn, c32[0][0], lambda g: g.kind == "bool" and g.term[0] == "cmp" and g.term[1] == "Eq" and g.truth is True and "Fat32" in tstr(g.term) and "fat_type" in tstr(g.term))
-        g16, _ = guarded(fn, c16[0][0], lambda g: g.kind == "bool" and g.term[0] == "cmp" and g.term[1] == "Eq" and g.truth is False and "Fat32" in tstr(g.term) and "fat_type" in tstr(g.term))
-        ok = g32 and g16
+        # decided per value of the fat_type argument (if / match / == alike)
+        from .ev import specialise_enum
+        is_ft = lambda t: strip_refs(t)[:2] == ("arg", 2)
+        vs = F.variants("fat::FatType")
+        for nm, want, never in (("Fat32", c32, c16), ("Fat16", c16, c32)):
+            rs = fn.reach([0], cut_edges=specialise_enum(fn, is_ft, vs, nm))
+            ok = ok and all(b in rs for b, t in want) and not any(b in rs for b, t in never)
     R.require(ok, fn, "cluster-per-fat-type", "get_entry must use first_cluster_fat32 exactly for FatType::Fat32 and first_cluster_fat16 otherwise", fn.loc(0))
     # the 11 name bytes are taken over verbatim (the long-name checksum is computed over the bytes as stored)
     cps = [(b, t) for b, t in fn.calls() if (callee_of(t) or "").endswith("copy_from_slice")]
@@ -247,6 +253,12 @@ def sk2(F, R):
                 st0 = (b, i)
             if fld == 1 and v[:2] == ("arg", 4):
                 st1 = (b, i)
+            # `*start = (0, file_start)`: both fields in one store
+            if s["p"]["l"] == 3 and len(pj) == 1 and pj[0][0] == "deref" and v[0] == "agg" and v[1] == "Tuple" and len(v[3]) == 2:
+                if v[3][0][:2] == ("c", 0):
+                    st0 = (b, i)
+                if strip_refs(v[3][1])[:2] == ("arg", 4):
+                    st1 = (b, i)
     ok = st0 is not None and st1 is not None
     if ok:
         g = g_cmp("Lt", True, lambda a: a[:2] == ("arg", 5), lambda z: z[0] == "place" and z[1][:2] == ("arg", 3) and tuple(z[2]) == ("*", "0"))
@@ -732,6 +744,65 @@ def io1(F, R):
 # RD1 / WR1 / SK5: the offset -> (block, offset-in-block, available) translation and the copy loops
 
 
+def slice_window(t):
+    """(base term, start term, length term | None for 'to the end') of a slice expression built from nested index / index_mut
+    calls with Range / RangeFrom / RangeTo / RangeInclusive / RangeFull arguments: `buf[a..][..n]` and `buf[a..a + n]` are
+    the same window.  None when t is not such an expression (then t itself is the base: window (t, 0, None))."""
+    from .poly import ADD, SUB, C
+    t = strip_refs(t)
+    while t[0] == "place" and all(e == "*" for e in t[2]):
+        t = strip_refs(t[1])
+    if t[0] == "call" and t[1] and t[1].split("::")[-1] in ("index", "index_mut") and len(t[2]) == 2:
+        r = strip_refs(t[2][1])
+        a = n = None
+        if r[0] == "agg" and r[2]:
+            nm = r[2].replace("::Range::Range", "::Range").split("::")[-1]
+            full = r[2]
+            if full.endswith(("ops::RangeFrom", "RangeFrom::RangeFrom")) and len(r[3]) == 1:
+                a, n = r[3][0], None
+            elif full.endswith(("ops::RangeTo", "RangeTo::RangeTo")) and len(r[3]) == 1:
+                a, n = C(0), r[3][0]
+            elif full.endswith(("ops::Range", "ops::Range::Range")) and len(r[3]) == 2:
+                a, n = r[3][0], SUB(r[3][1], r[3][0])
+            elif full.endswith(("ops::RangeFull", "RangeFull::RangeFull")):
+                a, n = C(0), None
+            else:
+                return None
+        elif r[0] == "call" and r[1] and r[1].endswith("RangeInclusive::new") and len(r[2]) >= 2:
+            a, n = r[2][0], ADD(SUB(r[2][1], r[2][0]), C(1))
+        else:
+            return None
+        inner = slice_window(t[2][0])
+        if inner is None:
+            return (strip_refs(t[2][0]), a, n)
+        base, s0, n0 = inner
+        if n is None and n0 is not None:
+            n = SUB(n0, a)
+        return (base, ADD(s0, a), n)
+    return None
+
+
+def _single_atom(t):
+    """the operand x of a sum / difference t with t == x as polynomials (`a + n - a` is n); t itself when it is no sum"""
+    from .poly import peq
+    leaves = []
+
+    def walk(x):
+        x0 = strip_refs(x)
+        if x0[0] == "bin" and x0[1].replace("WithOverflow", "").replace("Unchecked", "") in ("Add", "Sub"):
+            walk(x0[2])
+            walk(x0[3])
+        else:
+            leaves.append(x)
+    walk(t)
+    if len(leaves) == 1:
+        return leaves[0]
+    for x in leaves:
+        if peq(t, x):
+            return x
+    return None
+
+
 def min_args(t):
     """operands of a (nested, any order, function or method form) minimum"""
     t0 = strip_refs(t)
@@ -770,10 +841,14 @@ def sk5(F, R):
             ok = ok and peq(av, SUB(C(512), rem))
         R.require(ok, fn, "result-formula", "find_data_on_disk must return (cluster_to_block(start.1) + (desired - start.0)/512, desired %% 512, 512 - desired %% 512); got %s" % tstr(v), fn.loc(b, i))
     # loop trip count and per-link advance
+    # the number of links followed: the trip count of the walk's loop, however the loop counts (for 0..n, countdown, count-up)
+    from .ev import loop_trip_count
     rng = None
-    for b, i, s in fn.stmts():
-        if s["k"] == "Assign" and s["rv"]["k"] == "Aggregate" and s["rv"].get("adt", "").endswith("Range"):
-            rng = [fn.term_of_operand(o, b) for o in s["rv"]["ops"]]
+    wl = [l for l in fn.loops() if any(call_matches(fn.term(b), ("FatVolume::next_cluster",)) for b in l[1] if fn.term(b)["k"] == "Call")]
+    if len(wl) == 1:
+        tc_ = loop_trip_count(fn, wl[0])
+        if tc_ is not None:
+            rng = [tc_[1], tc_[2]] if tc_[0] == "range" else [("c", 0, None), tc_[1]]
     from .poly import peq as _peq, ADD as _ADD, SUB as _SUB, DIV as _DIV, MUL as _MUL, C as _C
     _want = ("arg", 5, "desired_offset")
     _st0 = ("place", ("arg", 3, "start"), ("*", "0"))
@@ -805,21 +880,34 @@ def rd1(F, R):
     for b, t in cps:
         dst = fn.term_of_operand(t["args"][0], b)
         src = fn.term_of_operand(t["args"][1], b)
-        rd = find_sub(dst, ("agg", "Range", ["$a", "$b"]))
-        rs = find_sub(src, ("agg", "Range", ["$a", "$b"]))
-        ok = rd is not None and rs is not None
+        from .poly import peq as _peq
+        wd, ws = slice_window(dst), slice_window(src)
+        ok = wd is not None and ws is not None and wd[2] is not None and ws[2] is not None
         tc = None
+        rd_start = None
         if ok:
-            e = tmatch(rd["$b"], ("bin", "Add", "$x", "$n"))
-            ok = e is not None and e["$x"] == rd["$a"] and strip_refs(rd["$a"])[0] == "var"
-            tc = e["$n"] if e else None
-        if ok:
-            e2 = tmatch(rs["$b"], ("bin", "Add", "$x", "$n"))
-            ok = e2 is not None and e2["$x"] == rs["$a"] and e2["$n"] == tc and _is_fdd_comp(rs["$a"], 1)
+            # the windows, however the slicing is spelt (buf[r..r+n], buf[r..][..n]): same length, destination starts at the
+            # running count, source at the block offset find_data_on_disk gave
+            tc = _single_atom(wd[2])
+            rd_start = strip_refs(wd[1]) if strip_refs(wd[1])[0] == "var" else _single_atom(wd[1])
+            ok = tc is not None and rd_start is not None and strip_refs(rd_start)[0] == "var" and strip_refs(wd[0])[:2] == ("arg", 3)
+            ok = ok and _peq(ws[2], wd[2]) and _is_fdd_comp(_single_atom(ws[1]) or ws[1], 1)
         R.require(ok, fn, "copy-ranges", "the copy must be buffer[read..read+n] <- block[block_offset..block_offset+n] with the same n", fn.loc(b))
         ma = min_args(tc) if tc is not None else []
-        okn = (len(ma) == 3 and sum(1 for x in ma if _is_fdd_comp(x, 2)) == 1 and sum(1 for x in ma if strip_refs(x)[0] == "var" and not _is_fdd_comp(x, 2)) == 1
+
+        def is_space(x):
+            """the room left in the caller's buffer: a local kept in step (checked under bookkeeping), or len(buffer[read..])"""
+            x0 = strip_refs(x)
+            if x0[0] == "var" and not _is_fdd_comp(x, 2):
+                return "var"
+            if x0[0] == "call" and x0[1] and x0[1].split("::")[-1] == "len" and x0[2] or x0[0] == "un" and x0[1] == "PtrMetadata":
+                w = slice_window(x0[2][0] if x0[0] == "call" else x0[2])
+                if w is not None and w[2] is None and strip_refs(w[0])[:2] == ("arg", 3) and rd_start is not None and _peq(w[1], rd_start):
+                    return "window"
+            return None
+        okn = (len(ma) == 3 and sum(1 for x in ma if _is_fdd_comp(x, 2)) == 1 and sum(1 for x in ma if is_space(x)) == 1
                and sum(1 for x in ma if has_sub(x, lambda q: q[0] == "call" and q[1] and path_matches(q[1], "FileInfo::left"))) == 1)
+        space_form = ([is_space(x) for x in ma if is_space(x)] or [None])[0]
         R.require(okn, fn, "to_copy", "to_copy must be min(block_avail, space, file.left()); got %s" % (tstr(tc)[:200] if tc else None), fn.loc(b))
         R.require("buffer" in tstr(dst) and has_sub(src, lambda q: q[0] == "call" and q[1] and path_matches(q[1], "BlockCache::read")), fn, "copy-direction", "data must flow from the cached block into the caller's buffer", fn.loc(b))
         # bookkeeping after the copy
@@ -830,11 +918,13 @@ def rd1(F, R):
                 names["read"] = l
             if len(ds) == 2 and any(tmatch(d, ("call", "len")) is not None or "len(" in tstr(d) or "PtrMetadata" in tstr(d) for d in ds) and any(tmatch(d, ("bin", "Sub", ("var", "_"), "_")) is not None for d in ds):
                 names["space"] = l
-        okb = "read" in names and "space" in names
+        okb = "read" in names and ("space" in names or space_form == "window")
         if okb:
             dr = [d for d in var_def_terms(fn, names["read"]) if d[0] == "bin"][0]
-            dsp = [d for d in var_def_terms(fn, names["space"]) if d[0] == "bin"][0]
-            okb = dr[3] == tc and dsp[3] == tc
+            okb = dr[3] == tc and rd_start is not None and strip_refs(rd_start)[:2] == ("var", names["read"])
+            if space_form != "window":
+                dsp = [d for d in var_def_terms(fn, names["space"]) if d[0] == "bin"][0]
+                okb = okb and dsp[3] == tc
         R.require(okb, fn, "bookkeeping", "after the copy: read += to_copy and space -= to_copy with the same to_copy", fn.loc(b))
         sk = [(bb, tt) for bb, tt in fn.calls() if call_matches(tt, ("FileInfo::seek_from_current",))]
         oks = len(sk) == 1 and tmatch(fn.term_of_operand(sk[0][1]["args"][1], sk[0][0]), ("cast", "$n")) is not None and tmatch(fn.term_of_operand(sk[0][1]["args"][1], sk[0][0]), ("cast", "$n"))["$n"] == tc
@@ -996,19 +1086,47 @@ def cb1(F, R):
                         ADD(lba, ADD(fdb, MUL(SUB(cl, C(2)), bpc))))
     R.require(g32["root"] >= 1 and g32["data"] >= 1 and not g32["other"], fn, "fat32",
               "FAT32 mapping must be lba_start + first_data_block + (n-2)*blocks_per_cluster with n = (cluster == ROOT_DIR ? first_root_dir_cluster : cluster); unexpected: %s" % (g32["other"] or "missing alternative"), fn.loc(0))
+    # BlockIdx::range(num) and BlockIter::next, decided together by evaluation: the iterator range(a, n) builds must yield
+    # a, a+1, ..., a+n-1 and then None - whatever the fields are called and however next() is phrased
+    from .absint import Interp, State, Undecided
+    from .absval import const, agg as _agg, int_const, is_int, is_agg
     rg = F.fn("blockdevice::BlockIdx::range")
-    calls = [rg.call_term(t, b) for b, t in rg.calls()]
-    okr = any(tmatch(c, ("call", "BlockIter::new", [("arg", 1), ("call", "Add::add", [("arg", 1), ("agg", "BlockCount", [("place", ("arg", 2), ("0",))])])])) is not None for c in calls)
-    R.require(okr, rg, "range", "BlockIdx::range(num) must iterate from self to self + num", rg.loc(0))
     nx = [f for f in F.fns if f.npath.endswith("BlockIter as core::iter::Iterator>::next")]
-    okn = False
-    if nx:
-        f = nx[0]
-        somes = [(b, i) for b, i, s in f.stmts() if s["k"] == "Assign" and s["p"]["l"] == 0 and (lambda v: v[0] == "agg" and v[2] and v[2].endswith("Option::Some"))(f.term_of_rvalue(s["rv"], b))]
-        okn = len(somes) == 1 and guarded(f, somes[0][0], g_cmp("Ge", False, lambda a: "current" in tstr(a), lambda z: "inclusive_end" in tstr(z)))[0]
-        adds = [t for b, t in f.calls() if (callee_of(t) or "").endswith("AddAssign::add_assign")]
-        okn = okn and len(adds) == 1 and tstr(f.term_of_operand(adds[0]["args"][1], 0)) in ("BlockCount{1}",)
-    R.require(okn, None, "iter-next", "BlockIter::next must yield current and advance by one exactly while current < end (end exclusive)")
+    bad = None
+    if not nx:
+        bad = "BlockIter has no Iterator::next"
+    else:
+        try:
+            for a, n in ((0, 0), (7, 1), (7, 3), (0xFFFFFFF0, 5), (123456, 2)):
+                I = Interp(F, mode="bv", max_paths=64)
+                st = State()
+                outs = I.run(rg, [_agg("struct", "blockdevice::BlockIdx", 0, [const(a, 32)]), _agg("struct", "blockdevice::BlockCount", 0, [const(n, 32)])], st, 0)
+                if len(outs) != 1:
+                    bad = "range(%d, %d) has %d outcomes" % (a, n, len(outs))
+                    break
+                it, st = outs[0]
+                cell = I.heap_alloc(st, it)
+                got = []
+                for _k in range(n + 2):
+                    o2 = I.run(nx[0], [cell], st, 0)
+                    if len(o2) != 1:
+                        got.append("?")
+                        break
+                    rv, st = o2[0]
+                    if is_agg(rv) and rv[3] == 0:
+                        got.append(None)
+                    elif is_agg(rv) and rv[3] == 1 and is_agg(rv[4][0]) and is_int(rv[4][0][4][0]):
+                        got.append(int_const(rv[4][0][4][0]))
+                    else:
+                        got.append("?")
+                want = [a + k for k in range(n)] + [None, None]
+                if got != want:
+                    bad = "BlockIdx(%d).range(BlockCount(%d)) yields %s, expected %s" % (a, n, got, want)
+                    break
+        except Undecided as e:
+            bad = "cannot evaluate: %s" % e
+    R.require(bad is None, rg, "range", "BlockIdx::range(num) must iterate over self .. self + num (end exclusive), one block at a time: %s" % bad, rg.loc(0))
+    R.require(bad is None, nx[0] if nx else None, "iter-next", "BlockIter::next must yield current and advance by one exactly while current < end (end exclusive): %s" % bad)
 
 
 @rule("FI1", ["C01"], floor=3,
